@@ -17,7 +17,7 @@ P = {
                  '+ differential correspondence on operation sequences + crisis-keeper invariant routes after every block of random '
                  'block histories on the real application',
     'drivers': [
-        {'name': 'invariants', 'n': {'quick': 36, 'thorough': 600}, 'shrink_field': 'blocks', 'batch': 12,
+        {'name': 'invariants', 'n': {'quick': 60, 'thorough': 600}, 'shrink_field': 'blocks', 'batch': 12,
          'args': {'blocks': '20'}, 'timeout': 3000},
         {'name': 'bankops', 'n': {'quick': 300, 'thorough': 12000}, 'shrink_field': 'ops', 'batch': 5000},
     ],
